@@ -315,7 +315,7 @@ func c03Run(e *Env) {
 	}
 
 	nextNonce := 0
-	pings := 0
+	pings, peerReqs := 0, 0
 	var pingCalls []*Call
 	checked := map[*c03Req]bool{}
 	ticks := 0
@@ -456,7 +456,46 @@ func c03Run(e *Env) {
 				}
 			}
 			e.Fault("msg.forged")
-			w.Queue(&WMsg{Type: TNON, Code: 0x45, MID: w.NextPeerMID(), Token: tok, Payload: []byte("forged")}, label)
+			fm := &WMsg{Type: TNON, Code: 0x45, MID: w.NextPeerMID(), Token: tok, Payload: []byte("forged")}
+			if bw && t.Chance(1, 4) {
+				// a confused peer "continues" something that is no upload: 2.31 with a block option, under the token
+				// of a request without a payload that is outstanding
+				for _, o := range reqs {
+					if outstanding(o) && o.atPeer && o.kind != 3 {
+						fm = &WMsg{Type: TNON, Code: 0x5f, MID: fm.MID, Token: o.token, Opts: []WOpt{UintOpt(OptBlock2, BlockOpt(0, true, 0))}}
+						label = "forged(2.31 with a block option for an outstanding token)"
+						break
+					}
+				}
+			}
+			w.Queue(fm, label)
+		}
+		// tokens are scoped per direction (RFC 7252 5.3.1): a request of the peer may carry the same token bytes as a
+		// request of ours that is outstanding - it is a request, not the answer we are waiting for
+		if peerReqs < 2 {
+			var cands []*c03Req
+			for _, r := range reqs {
+				if outstanding(r) && r.atPeer && r.kind != 3 {
+					cands = append(cands, r)
+				}
+			}
+			if len(cands) > 0 {
+				evs = append(evs, Event{Label: "peer-request-with-our-token", W: 1, Do: func() {
+					peerReqs++
+					r := cands[t.Choose(len(cands))]
+					e.Fault("msg.peerRequestWithOutstandingToken")
+					e.Probe("peer.requestCarriesOutstandingToken")
+					m := &WMsg{Type: TNON, Code: 1, MID: w.NextPeerMID(), Token: r.token, Opts: []WOpt{{Num: OptURIPath, Val: []byte("peer-asks")}}, Payload: []byte("peer-request")}
+					if bw && t.Chance(1, 2) {
+						// ... asking for a block of the answer (early negotiation of the block size)
+						m.Opts = append(m.Opts, UintOpt(OptBlock2, BlockOpt(uint32(t.Choose(2)), false, 0)))
+						m.Payload = nil
+					}
+					it := w.Queue(m, fmt.Sprintf("request of the peer with the token of n=%d", r.nonce))
+					it.NoDup = true
+					w.Emit(it, false)
+				}})
+			}
 		}
 		if pings < 2 {
 			evs = append(evs, Event{Label: "ping", W: 1, Do: func() {
